@@ -1,8 +1,10 @@
 # C06 — static structure and text are reproduced faithfully.
+import json
 import tgen
 import tmpl
-from core import CoreProp, ser, de, shrink_nodes
-from common import run_harness, judge_in_coq, cq_bytes, cq_nat, unhx, BuildError
+from tmpl import s_, js_src, js_coq, stmt_src, stmt_coq, attr_coq
+from core import CoreProp, ser, de, shrink_nodes, obsm_coq, FUNCS
+from common import run_harness, judge_in_coq, cq_bytes, cq_nat, cq_list, cq_bool, cq_opt, cq_pair, unhx, hx, BuildError
 
 # delimiter-heavy alphabet: the template engine's own delimiters, trim markers, comment markers, quotes,
 # back-ticks, backslashes, white space of every kind the lexer trims, multi-byte UTF-8, inline markup
@@ -18,6 +20,7 @@ BLOCK_TAGS = [b"div", b"p", b"ul", b"li", b"h1", b"section", b"td", b"main", b"x
 INLINE_TAGS = [b"span", b"b", b"i", b"a", b"em", b"q"]
 VOID = [b"br", b"hr", b"img", b"input", b"meta", b"link", b"wbr", b"area", b"base", b"col", b"embed", b"param",
         b"source", b"track", b"command", b"keygen"]
+DRESSED = 0.4      # share of the cases whose AST carries the fields ordinary templates never set
 DOCTYPES = [b"html", b"html PUBLIC \"-//W3C//DTD XHTML 1.0 Strict//EN\"", b"xml", b"{x}"]
 
 
@@ -90,6 +93,319 @@ def all_texts(nodes, acc):
     return acc
 
 
+# ---------------------------------------------------------------------------------------------------------
+# The AST as the DECODER sees it.  The *.ast.json files the engine loads come from the pug front end and carry
+# more than the shared writer (tmpl.pug_json) sets: every node has line / column / filename, every Tag has
+# `selfClosing` (true for the pug source `div/`, `img/`), script/style bodies written with a trailing dot are
+# `textOnly`, literal HTML lines are Text nodes with `isHtml`, blocks of a linked template are NamedBlock nodes
+# with name and mode, an unbuffered block comment is a BlockComment with a block, an element without children
+# may have an empty block, `block: null` or no block at all.  json.Unmarshal copies whatever matches a field of
+# pugjs.Token (case-insensitively) into the token tree, on every node kind; the rendering must depend on none of
+# it: void or not is a matter of the element's name only.
+#
+# A tag tuple may carry a 7th element, the fields of ITS AST node:
+#   sc:  selfClosing  None (absent) | False | True        blk: 'block' | 'null' | 'absent' (childless elements)
+#   at:  'list' | 'absent' (attrs / attributeBlocks keys of an element without attributes)     to: textOnly
+# and the case a style for the node kinds that have no slot of their own (case["ast"]):
+#   lines (line0, filename): line/column/filename on every node, attribute and block     named: NamedBlock
+#   html: isHtml on texts beginning with '<'     bcomment: BlockComment     sc_other: selfClosing:true on every
+#   node that is not a Tag     sc_key: spelling of the key (the decoder matches keys case-insensitively)
+# A plain case (no style, 6-tuples) is written exactly as tmpl.pug_json writes it.
+SC_KEYS = ["selfClosing", "selfClosing", "selfClosing", "selfclosing", "SelfClosing", "SELFCLOSING"]
+WS_TEXTS = [b" ", b"\n", b"  ", b"\n  ", b"\t", b"\r\n", b" \n\t "]
+SLASH_NAMES = [b"div", b"p", b"li", b"section", b"span", b"a", b"b", b"td", b"x-y", b"style", b"textarea", b"title"]   # script: gen_static (F-C06-e)
+
+
+class Writer:
+    """pug tuples -> AST JSON, with the fields above"""
+
+    def __init__(self, style=None):
+        self.st = style or {}
+        self.line = self.st.get("line0", 1)
+        self.nblock = 0
+
+    def pos(self, d, other=True):
+        if other and self.st.get("sc_other"):
+            d[self.st.get("sc_key", "selfClosing")] = True
+        if self.st.get("lines"):
+            d["line"] = self.line
+            d["column"] = 1 + self.line % 7
+            d["filename"] = self.st.get("filename", "t.pug")
+            self.line += 1
+        return d
+
+    def blk(self, l):
+        return self.pos({"type": "Block", "nodes": [self.node(x) for x in l]})
+
+    def attrs(self, l):
+        return [self.pos({"name": s_(a[0]), "val": s_(js_src(a[1])), "mustEscape": a[2]}, other=False) for a in l]
+
+    def node(self, n):
+        k = n[0]
+        if k == 'tag':
+            f = n[6] if len(n) > 6 else {}
+            d = {"type": "Tag", "name": s_(n[1]), "isInline": n[2]}
+            sc = f.get("sc", False)
+            if sc is not None:
+                d[self.st.get("sc_key", "selfClosing")] = sc
+            if f.get("to") is not None:
+                d["textOnly"] = f["to"]
+            if n[3] or n[4] or f.get("at", "list") == "list":
+                d["attrs"] = self.attrs(n[3])
+                d["attributeBlocks"] = [{"type": "AttributeBlock", "val": s_(a)} for a in n[4]]
+            self.pos(d, other=False)
+            how = f.get("blk", "block")
+            if n[5] or how == "block":
+                d["block"] = self.blk(n[5])
+            elif how == "null":
+                d["block"] = None
+            return d
+        if k == 'text':
+            d = {"type": "Text", "val": s_(n[1])}
+            if self.st.get("html") and n[1][:1] == b"<":
+                d["isHtml"] = True
+            return self.pos(d)
+        if k == 'code':
+            return self.pos({"type": "Code", "val": s_(b'; '.join(stmt_src(x) for x in n[1])),
+                             "buffer": n[2] or len(n[1]) == 1 and n[1][0][0] == 'expr', "mustEscape": n[2], "isInline": n[3]})
+        if k == 'cond':
+            d = self.pos({"type": "Conditional", "test": s_(js_src(n[1])), "consequent": None, "alternate": None})
+            d["consequent"] = self.blk(n[2])
+            if n[3] is not None:
+                d["alternate"] = self.blk(n[3][1]) if n[3][0] == 'block' else self.node(n[3])
+            return d
+        if k == 'case':
+            d = self.pos({"type": "Case", "expr": s_(js_src(n[1])), "block": None})
+            whens = []
+            for w, body in n[2]:
+                wd = self.pos({"type": "When", "expr": "default" if w is None else s_(js_src(w)), "block": None})
+                wd["block"] = self.blk(body)
+                whens.append(wd)
+            d["block"] = self.pos({"type": "Block", "nodes": whens})
+            return d
+        if k == 'each':
+            d = self.pos({"type": "Each", "obj": s_(js_src(n[3])), "val": s_(n[1]), "key": None if n[2] is None else s_(n[2]),
+                          "block": None})
+            d["block"] = self.blk(n[4])
+            return d
+        if k == 'while':
+            d = self.pos({"type": "While", "test": s_(js_src(n[1])), "block": None})
+            d["block"] = self.blk(n[2])
+            return d
+        if k == 'mixin':
+            d = self.pos({"type": "Mixin", "name": s_(n[1]), "args": ", ".join(s_(p) for p in n[2]) if n[2] else None, "call": False,
+                          "attrs": [], "attributeBlocks": [], "block": None})
+            d["block"] = self.blk(n[3])
+            return d
+        if k == 'call':
+            d = self.pos({"type": "Mixin", "name": s_(n[1]), "args": s_(b', '.join(js_src(a) for a in n[2])), "call": True,
+                          "attrs": None, "attributeBlocks": [], "block": None})
+            d["attrs"] = self.attrs(n[3])
+            d["block"] = self.blk(n[4]) if n[4] else None
+            return d
+        if k == 'mixinblock':
+            return self.pos({"type": "MixinBlock"})
+        if k == 'doctype':
+            return self.pos({"type": "Doctype", "val": s_(n[1])})
+        if k == 'block':
+            if self.st.get("named"):
+                self.nblock += 1
+                d = self.pos({"type": "NamedBlock", "name": "b%d" % self.nblock, "mode": ["replace", "append", "prepend"][self.nblock % 3],
+                              "nodes": None})
+                d["nodes"] = [self.node(x) for x in n[1]]
+                return d
+            return self.blk(n[1])
+        if k == 'comment':
+            if self.st.get("bcomment"):
+                d = self.pos({"type": "BlockComment", "val": "c", "buffer": False, "block": None})
+                d["block"] = self.blk([('text', b"not rendered")])
+                return d
+            return self.pos({"type": "Comment", "val": "c", "buffer": False})
+        raise ValueError(k)
+
+    def file(self, nodes):
+        root = self.pos({"type": "Block", "nodes": None})
+        root["nodes"] = [self.node(n) for n in nodes]
+        return json.dumps(root, ensure_ascii=False).encode('utf-8', 'surrogateescape')
+
+
+def tn_coq(n):
+    """the decoded tree as a Models.AstFields.tnode term"""
+    k = n[0]
+    L = lambda l: cq_list([tn_coq(x) for x in l])
+    if k == 'tag':
+        sc = (n[6] if len(n) > 6 else {}).get("sc", False)
+        return (b'(TNTag ' + cq_bytes(n[1]) + b' ' + cq_opt(None if sc is None else cq_bool(sc)) + b' ' + cq_bool(n[2]) + b' '
+                + cq_list([attr_coq(a) for a in n[3]]) + b' ' + cq_list([cq_bytes(a) for a in n[4]]) + b' ' + L(n[5]) + b')')
+    if k == 'text':
+        return b'(TNText ' + cq_bytes(n[1]) + b')'
+    if k == 'code':
+        return b'(TNCode ' + cq_list([stmt_coq(x) for x in n[1]]) + b' ' + cq_bool(n[2]) + b' ' + cq_bool(n[3]) + b')'
+    if k == 'cond':
+        return b'(TNCond ' + js_coq(n[1]) + b' ' + L(n[2]) + b' ' + cq_opt(None if n[3] is None else tn_coq(n[3])) + b')'
+    if k == 'case':
+        return b'(TNCase ' + js_coq(n[1]) + b' ' + cq_list([cq_pair(cq_opt(None if w is None else js_coq(w)), L(body))
+                                                             for w, body in n[2]]) + b')'
+    if k == 'each':
+        return (b'(TNEach ' + cq_bytes(n[1]) + b' ' + cq_opt(None if n[2] is None else cq_bytes(n[2])) + b' '
+                + js_coq(n[3]) + b' ' + L(n[4]) + b')')
+    if k == 'while':
+        return b'(TNWhile ' + js_coq(n[1]) + b' ' + L(n[2]) + b')'
+    if k == 'mixin':
+        return b'(TNMixinDef ' + cq_bytes(n[1]) + b' ' + cq_list([cq_bytes(p) for p in n[2]]) + b' ' + L(n[3]) + b')'
+    if k == 'call':
+        return (b'(TNMixinCall ' + cq_bytes(n[1]) + b' ' + cq_list([js_coq(a) for a in n[2]]) + b' '
+                + cq_list([attr_coq(a) for a in n[3]]) + b' ' + L(n[4]) + b')')
+    if k == 'mixinblock':
+        return b'TNMixinBlock'
+    if k == 'doctype':
+        return b'(TNDoctype ' + cq_bytes(n[1]) + b')'
+    if k == 'block':
+        return b'(TNBlock ' + L(n[1]) + b')'
+    if k == 'comment':
+        return b'TNComment'
+    raise ValueError(k)
+
+
+def sub_lists(n):
+    """[(child node list, put)] of a node; put(new list) gives the node with that list replaced"""
+    k = n[0]
+    if k == 'tag':
+        return [(n[5], lambda b: n[:5] + (b,) + n[6:])]
+    if k == 'cond':
+        out = [(n[2], lambda b: (k, n[1], b, n[3]))]
+        if n[3] is not None and n[3][0] == 'block':
+            out.append((n[3][1], lambda b: (k, n[1], n[2], ('block', b))))
+        elif n[3] is not None:
+            out.append(([n[3]], lambda b: (k, n[1], n[2], None if not b else b[0] if len(b) == 1 and b[0][0] == 'cond' else ('block', b))))
+        return out
+    if k == 'case':
+        return [(body, (lambda i: lambda b: (k, n[1], n[2][:i] + [(n[2][i][0], b)] + n[2][i + 1:]))(i)) for i, (w, body) in enumerate(n[2])]
+    if k == 'each':
+        return [(n[4], lambda b: n[:4] + (b,))]
+    if k == 'while':
+        return [(n[2], lambda b: (k, n[1], b))]
+    if k == 'mixin':
+        return [(n[3], lambda b: n[:3] + (b,))]
+    if k == 'call':
+        return [(n[4], lambda b: n[:4] + (b,))]
+    if k == 'block':
+        return [(n[1], lambda b: (k, b))]
+    return []
+
+
+def is_blank(body):
+    """what pug-code-gen lets a self-closing element hold: Text nodes of white space (sc_dom of Models/AstFields.v)"""
+    return all(x[0] == 'text' and x[1].strip(b" \t\r\n") == b"" for x in body)
+
+
+def tag_fields(rng, name, body):
+    k = rng.random()
+    if name in VOID or is_blank(body):
+        sc = True if k < 0.45 else False if k < 0.75 else None
+    else:
+        # content pug rejects under a self-closing mark: rarely (no prescription; counted as unmodelled)
+        sc = True if k < 0.04 else False if k < 0.6 else None
+    f = {"sc": sc}
+    if not body:
+        f["blk"] = rng.choice(["block", "block", "null", "absent"])
+    if rng.random() < 0.3:
+        f["at"] = "absent"
+    if rng.random() < 0.15:
+        f["to"] = rng.random() < 0.7
+    return f
+
+
+def slash_element(rng):
+    """`name/` as the pug front end hands it over: selfClosing true, any element kind, with what may follow the slash"""
+    name = rng.choice(SLASH_NAMES) if rng.random() < 0.8 else rng.choice(VOID)
+    k = rng.random()
+    if k < 0.55:
+        body = []
+    elif k < 0.93:
+        body = [('text', rng.choice(WS_TEXTS)) for _ in range(rng.choice([1, 1, 2]))]
+    else:
+        body = [text(rng)]
+    f = {"sc": True}
+    if not body:
+        f["blk"] = rng.choice(["block", "null", "absent"])
+    return ('tag', name, rng.random() < 0.5, [], [], body, f)
+
+
+def dress_node(rng, n):
+    n2 = n
+    for i, (lst, _) in enumerate(sub_lists(n)):
+        if n[0] == 'cond' and i == 1 and n[3][0] != 'block':
+            n2 = n2[:3] + (dress_node(rng, n2[3]),)
+        else:
+            n2 = sub_lists(n2)[i][1](dress(rng, lst, top=False))
+    if n2[0] == 'tag':
+        inline = (not n2[2]) if rng.random() < 0.12 else n2[2]      # isInline is the front end's opinion, not the name's
+        n2 = ('tag', n2[1], inline) + n2[3:6] + (tag_fields(rng, n2[1], n2[5]),)
+    return n2
+
+
+def dress(rng, nodes, top=True):
+    """every Tag of the tree gets its AST fields; explicit `name/` elements are put between the nodes of any list"""
+    out = [dress_node(rng, n) for n in nodes]
+    while rng.random() < 0.2:
+        lo = 1 if top and out and out[0][0] == 'doctype' else 0
+        out.insert(rng.randrange(lo, len(out) + 1), slash_element(rng))
+    return out
+
+
+def new_style(rng):
+    return {"lines": rng.random() < 0.6, "line0": rng.choice([0, 1, 1, 1, 40, 2 ** 31 - 40]),
+            "filename": rng.choice(["t.pug", "/src/page/t.pug", "", "atom/b{{t}}.pug"]),
+            "named": rng.random() < 0.4, "html": rng.random() < 0.4, "bcomment": rng.random() < 0.3,
+            "sc_other": rng.random() < 0.3, "sc_key": rng.choice(SC_KEYS)}
+
+
+def all_tags(nodes, acc):
+    for n in nodes:
+        if n[0] == 'tag':
+            acc.append(n)
+        for lst, _ in sub_lists(n):
+            all_tags(lst, acc)
+    return acc
+
+
+# ---------------------------------------------------------------------------------------------------------
+# SIBLING PAGES.  A template is never alone: LoadTemplates("") compiles every *.ast.json under template/page in one
+# go, directory by directory.  Pages of one project define mixins of the same name (`+card`, `+it`) with bodies of
+# their own; what page t renders must be what t says, whatever was compiled before it.  A case may carry sibling
+# pages (case["siblings"]: name -> nodes) that are written next to t (same directory; directory order decides which
+# is compiled first, so several names are used) or into a sub-directory.  They are never rendered and are
+# invisible to model and specification: the oracle is the rendering of t alone.
+MIXIN_NAMES = [b"m1", b"card", b"it"]
+SIBLING_NAMES = ["a", "index", "m", "page2", "u", "zz", "0", "T", "home.partial", "sub/t", "sub/other", "s"]
+
+
+def sibling_page(rng, names):
+    """a loadable page of its own: the mixin names of the project with OTHER bodies, static content, calls"""
+    nodes = []
+    for nm in names:
+        body = [text(rng), ('tag', rng.choice(BLOCK_TAGS + INLINE_TAGS), False, [], [], [text(rng, edge_ws=False)]),
+                ('code', [('expr', ('id', b"a"))], True, True)]
+        rng.shuffle(body)
+        if rng.random() < 0.5:
+            body.append(('mixinblock',))
+        nodes.append(('mixin', nm, [b"a"], body))
+    nodes += static_nodes(rng, 1, rng.choice([1, 2]))
+    for nm in names:
+        if rng.random() < 0.7:
+            blk = [text(rng)] if rng.random() < 0.5 else []
+            nodes.insert(rng.randrange(len(names), len(nodes) + 1), ('call', nm, [('str', b"sibling")], [], blk))
+    return nodes
+
+
+def siblings(rng, names):
+    out = {}
+    for _ in range(rng.choice([1, 2, 2, 3])):
+        out[rng.choice(SIBLING_NAMES)] = ser(sibling_page(rng, names))
+    return out
+
+
 class G(tgen.TGen):
     """tgen's typed program generator with this property's texts"""
 
@@ -122,7 +438,7 @@ class C06(CoreProp):
     prop_module = "Props.C06"
     prop_file = "Props/C06.v"
     coq_targets = ["Props/C06.vo", "Run/Judge_C06.vo", "Props/Tables.vo"]
-    sizes = {"quick": 1500, "thorough": 40000}
+    sizes = {"quick": 1500, "thorough": 30000}
     shard = 120
     design_ref = "DESIGN.md section 6/C06"
     rule = ("half of the cases are STATIC tag trees (block/inline, void/non-void incl. void elements with children, depth <= 8, "
@@ -132,8 +448,21 @@ class C06(CoreProp):
             "template source must yield text/string-literal items whose values concatenate to the engine's output. The other half are "
             "MIXED programs (the same texts next to buffered code, buffered string literals with braces (`= \"a{\"`, F-C06-f), "
             "assignments, if/else, case, each, while, mixin definition/call/block, unbuffered calls) rendered with data; oracle: the independent pug semantics, white space only at text edges in "
-            "trees with control constructs. non-trivial = some text contains a brace and has a neighbour, or tree depth >= 3; "
-            "distinct by SHA-1 of the case")
+            "trees with control constructs. AST FIELDS: 40 % of the cases (static and mixed alike) are written as the pug front end writes "
+            "them, with the fields the decoder reads (pugjs.Token) but ordinary templates never set, each in every value on every element "
+            "kind: `selfClosing` absent/false/true on void, block-level, inline, script and custom elements (and on every other node kind, "
+            "spelled in any letter case); explicit `name/` elements (selfClosing true) put between the nodes of any list -- top level, element, "
+            "loop, branch, mixin body, call block -- empty, with `block` empty/null/absent, or holding white-space text; isInline contradicting "
+            "the element kind; attrs/attributeBlocks absent; textOnly; line/column/filename on every node; NamedBlock (name, mode) for Block; "
+            "BlockComment; isHtml. Oracle unchanged and on the ERASED tree (an end tag for every element that is not void, none for void ones, "
+            "every text byte for byte -- the flag has no say); an element that is not void, marked self-closing and holding anything but "
+            "white-space text is rejected by pug itself: no prescription, such cases (about 4 %) are compared with the model only and counted "
+            "as unmodelled (drift when the engine deviates from the model). SIBLING PAGES: 15 % of the mixed cases (those that define a "
+            "mixin) and 6 % of the static ones are loaded together with 1-3 other pages -- in the same directory (several names, so that "
+            "directory order puts some before t) or a sub-directory -- that define the project's mixin names (m1, card, it: the name t uses "
+            "included) with bodies of their own and call them; they are never rendered and invisible to model and specification: t must "
+            "render what t says, and its emitted source must be its own. non-trivial = some text contains a brace and has a neighbour, or "
+            "tree depth >= 3, or an element that is not void carries the mark next to another node; distinct by SHA-1 of the case")
     trusted = [
         "M = Pug/Compile.v (buildNode Text arm, Tag/Text/Doctype/Block/Comment Render), Tmpl/IR.v (token-level trimming), "
         "Tmpl/Lexer.v (byte-level model of the top level of parse/lex.go), Tmpl/Exec.v: hand-written Gallina readings of the Go code, "
@@ -144,12 +473,26 @@ class C06(CoreProp):
         "actions a quoted text consists of are single interpreted string literals; their value is read off by str_lit",
         "the pug front end (pug-lexer/parser) is not available offline: the AST JSON is generated (isInline, mustEscape as the real "
         "compiler sets them); text must be valid UTF-8 to survive encoding/json",
+        "Models/AstFields.v: tnode = the tree as the decoder sees it (every Tag with the `selfClosing` field of its AST node), bn_tag = "
+        "hand-written reading of the Tag arm of buildNode, mevents = the case split of CommonTag.render on the built tag; the judge's "
+        "case carries this tree, model and oracle work on `erase` of it (C06_ast_flag_erased). The other AST fields of the class "
+        "(line, column, filename, textOnly, isHtml, NamedBlock name/mode, BlockComment, absent/null block, absent attrs, key spelling) "
+        "have no counterpart in Coq: gen/c06.py (Writer) writes them into the file the engine loads and the emitter leaves them out, i.e. "
+        "the oracle demands that the output does not depend on them",
+        "what pug accepts under a self-closing mark (sc_dom: Text nodes of space/tab/CR/LF only) is written down from pug-code-gen "
+        "visitTag (`<name/>`, error SELF_CLOSING_CONTENT otherwise), not executed; that the property wants `<div></div>` and not pug's "
+        "own `<div/>` there is read off its text (an end tag for every non-void element)",
     ]
     assumptions = [
         "tag names and doctype values contain no '{{' (the generator uses HTML names)",
         "a block-level unescaped code line that is a bare method call is the unbuffered form `- f(x)` (Code.Buffer is not part of the "
         "modelled AST): pug prints nothing for it",
         "listed deviations (KNOWN_FINDINGS.txt) are reported as KNOWN-FINDING, not judged as violations",
+        "sibling pages are loadable by construction (static content, mixin definitions with one parameter, calls with a string "
+        "argument); a load failure of the directory is judged as the engine refusing t",
+        "every Tag and Code node of an AST has isInline (the pug front end always sets it; CommonTag.render dereferences it in both "
+        "modes); InterpolatedTag nodes (`#{e}/`: there the engine does honour selfClosing, the name being unknown at load time) and "
+        "buffered comments are not generated; production mode only (debug mode: C13)",
     ]
     not_yet_proved = [
         "the lexer seam segment (show_toks ts) = Some (map seg_of_tok (lexed ts)) is a THEOREM for every compiled program of the domain "
@@ -167,6 +510,12 @@ class C06(CoreProp):
         "(C06_lexer_trims_only_ws), the shape theorem that only control actions carry markers for ALL programs (C06_trim_only_ws) and "
         "the exact output for all static trees (C06_static_model_output); the output-level statement for mixed programs is checked by "
         "the oracle (ws_subseq against the independent semantics) on the implementation's own output",
+        "AST fields: proved are C06_ast_selfclosing_table_only (the built tag's SelfClosing is the table's verdict for ALL names and flag "
+        "values), C06_ast_flag_erased (ALL trees: the events CommonTag.render writes on built tags = the specification's events of the "
+        "erased tree), C06_ast_static / C06_ast_static_wf (ALL static decoded trees: emitted source = serialisation, well-formed) and "
+        "C06_ast_selfclosing_guarded_refuted (the conditional overwrite breaks a template pug accepts). Not proved: anything about the "
+        "JSON decoder itself (that absent / null / differently spelled keys and the position fields reach buildNode as the zero value or "
+        "not at all) -- that is what the dressed cases compare on the real code",
     ]
 
     # ---------------------------------------------------------------- generation
@@ -181,7 +530,19 @@ class C06(CoreProp):
             nodes.append(('tag', b"script", False, [], [], [('text', b"var a = 1;"), ('text', b"\n"), ('text', b"a++;")]))
         elif rng.random() < 0.03:
             nodes.append(('tag', b"script", False, [], [], [('text', rng.choice([b"f({})", b"x = {a: {b: 1}}", b"if (a) { b() }"]))]))
-        return {"nodes": ser(nodes), "datas": [ser({})]}
+        case = self.finish(rng, nodes, [{}])
+        if rng.random() < 0.06:
+            case["siblings"] = siblings(rng, MIXIN_NAMES)
+        return case
+
+    def finish(self, rng, nodes, datas):
+        """the AST fields ordinary templates never set: DRESSED share of the cases (static and mixed alike)"""
+        case = {"nodes": None, "datas": [ser(d) for d in datas]}
+        if rng.random() < DRESSED:
+            nodes = dress(rng, nodes)
+            case["ast"] = new_style(rng)
+        case["nodes"] = ser(nodes)
+        return case
 
     def gen_mixed(self, rng, tier):
         g = G(rng, max_depth=2)
@@ -201,8 +562,11 @@ class C06(CoreProp):
             # holding {{ or }}, next to actions and texts (and to each other)
             for _ in range(rng.choice([1, 1, 2, 3])):
                 nodes.insert(rng.randrange(len(nodes) + 1), code_literal(rng))
+        sib = None
         if rng.random() < 0.25:
-            name = rng.choice([b"m1", b"card", b"it"])
+            name = rng.choice(MIXIN_NAMES)
+            if rng.random() < 0.6:
+                sib = siblings(rng, MIXIN_NAMES if rng.random() < 0.7 else [name])
             body = [text(rng), ('code', [('expr', ('id', b"a"))], True, True), text(rng)]
             if rng.random() < 0.6:
                 body.insert(rng.randrange(len(body) + 1), ('mixinblock',))
@@ -219,7 +583,10 @@ class C06(CoreProp):
         datas = [data]
         if rng.random() < 0.3:
             datas.append({k: g.value_of(t) for k, t in types0.items()})
-        return {"nodes": ser(nodes), "datas": [ser(d) for d in datas]}
+        case = self.finish(rng, nodes, datas)
+        if sib:
+            case["siblings"] = sib
+        return case
 
     def generate(self, rng, n, tier):
         cases = []
@@ -227,12 +594,36 @@ class C06(CoreProp):
             cases.append(self.gen_static(rng, tier) if rng.random() < 0.5 else self.gen_mixed(rng, tier))
         return cases
 
+    # ---------------------------------------------------------------- the case as the engine / the judge get it
+    def harness_case(self, case):
+        nodes, datas = de(case["nodes"]), [de(d) for d in case["datas"]]
+        files = {hx("t"): hx(Writer(case.get("ast")).file(nodes))}
+        for name, sn in (case.get("siblings") or {}).items():
+            files[hx(name)] = hx(Writer(None).file(de(sn)))
+        return {"files": files, "render": hx("t"), "datas": [tmpl.data_go(d) for d in datas], "debug": False}
+
+    def emit(self, case, obs):
+        nodes, datas = de(case["nodes"]), [de(d) for d in case["datas"]]
+        return (b"{| k_tree := " + cq_list([tn_coq(n) for n in nodes])
+                + b"; k_datas := " + cq_list([tmpl.data_coq(d) for d in datas])
+                + b"; k_funcs := " + cq_list([cq_bytes(f) for f in FUNCS])
+                + b"; k_prod := " + obsm_coq(obs["prod"], len(datas))
+                + b"; k_debug := " + cq_opt(None) + b" |}")
+
+    def sample(self, case, obs):
+        d = CoreProp.sample(self, case, obs)
+        d["pug_ast"] = json.loads(Writer(case.get("ast")).file(de(case["nodes"])).decode("utf-8", "replace"))
+        if case.get("siblings"):
+            d["sibling_pages"] = {k: json.loads(Writer(None).file(de(v)).decode("utf-8", "replace")) for k, v in case["siblings"].items()}
+        return d
+
     # ---------------------------------------------------------------- evidence
     def nontrivial(self, case, obs):
         nodes = de(case["nodes"])
         texts = all_texts(nodes, [])
         total = sum(tgen.node_kinds(nodes).values())
-        return (total >= 2 and any(b"{" in t or b"}" in t for t in texts)) or tree_depth(nodes) >= 3
+        marked = any(len(t) > 6 and t[6].get("sc") and t[1] not in VOID for t in all_tags(nodes, []))
+        return (total >= 2 and any(b"{" in t or b"}" in t for t in texts)) or tree_depth(nodes) >= 3 or (total >= 2 and marked)
 
     def distribution(self, cases, obss):
         d = CoreProp.distribution(self, cases, obss)
@@ -253,17 +644,53 @@ class C06(CoreProp):
                     brace_texts += 1
         d.update({"tree_depth": depth, "static_cases": static, "mixed_cases": len(cases) - static,
                   "texts": ntexts, "texts_with_braces": brace_texts})
+        # the AST-field class: which element kinds carried which value of selfClosing, and in what company
+        fields = {"cases_with_ast_fields": 0, "tags": 0}
+        for c in cases:
+            if "ast" in c:
+                fields["cases_with_ast_fields"] += 1
+                for k, v in c["ast"].items():
+                    if v is True:
+                        fields["style_" + k] = fields.get("style_" + k, 0) + 1
+            marked = off = False
+            for t in all_tags(de(c["nodes"]), []):
+                fields["tags"] += 1
+                if len(t) <= 6:
+                    continue
+                f = t[6]
+                kind = "void" if t[1] in VOID else "script" if t[1] == b"script" else "inline" if t[1] in INLINE_TAGS else "block-level"
+                key = "selfClosing_%s_on_%s" % ({None: "absent", False: "false", True: "true"}[f.get("sc")], kind)
+                fields[key] = fields.get(key, 0) + 1
+                if f.get("sc") and t[1] not in VOID:
+                    marked = True
+                    body = "empty" if not t[5] else "white_space_text" if is_blank(t[5]) else "content_pug_rejects"
+                    fields["marked_not_void_" + body] = fields.get("marked_not_void_" + body, 0) + 1
+                    off = off or body == "content_pug_rejects"
+                for k in ("blk", "at"):
+                    if f.get(k) in ("null", "absent"):
+                        fields["%s_%s" % (k, f[k])] = fields.get("%s_%s" % (k, f[k]), 0) + 1
+                if f.get("to") is not None:
+                    fields["textOnly_set"] = fields.get("textOnly_set", 0) + 1
+            if marked:
+                fields["cases_marking_an_element_that_is_not_void"] = fields.get("cases_marking_an_element_that_is_not_void", 0) + 1
+            if off:
+                fields["cases_outside_pugs_domain"] = fields.get("cases_outside_pugs_domain", 0) + 1
+        d["ast_fields"] = fields
+        with_sib = [c for c in cases if c.get("siblings")]
+        d["sibling_pages"] = {"cases_with_sibling_pages": len(with_sib), "pages": sum(len(c["siblings"]) for c in with_sib),
+                              "cases_whose_own_mixin_name_is_defined_by_a_sibling": sum(
+                                  1 for c in with_sib if any(n[0] == 'mixin' for n in de(c["nodes"])))}
         return d
 
     def model_expr(self):
-        return ("(forallb Spec.HtmlSer.static (nodes_of c), string_of_list_ascii (Spec.HtmlSer.html_ser (nodes_of c)), lexer_seam_ok c, "
+        return ("(let k := c in let c := case_of k in (forallb sc_dom (k_tree k), forallb Spec.HtmlSer.static (nodes_of c), string_of_list_ascii (Spec.HtmlSer.html_ser (nodes_of c)), lexer_seam_ok c, "
                 "match Tmpl.Lexer.segment (o_code (c_prod c)) with Some l => Some (map (fun g => match g with Tmpl.Lexer.SText s => (0, string_of_list_ascii s) "
                 "| Tmpl.Lexer.SAct l b r => ((if l then 1 else 0) + (if r then 2 else 0) + 10, string_of_list_ascii b) end) l) | None => None end, "
                 "match model_toks false c with Some ts => Some (string_of_list_ascii (show_toks ts)) | None => None end, "
                 "map (fun d => (match model_out false c d with OOk o => (0, string_of_list_ascii o) | OPanic => (1, EmptyString) "
                 "| OUnmod => (3, EmptyString) | OFuel => (4, EmptyString) end, "
                 "match spec06 c d with Spec.Sem.SOut o f => (0, string_of_list_ascii o, f) | Spec.Sem.SError f => (1, EmptyString, f) "
-                "| Spec.Sem.SOffDomain => (2, EmptyString, []) | Spec.Sem.SNoFuel => (4, EmptyString, []) end)) (c_datas c))")
+                "| Spec.Sem.SOffDomain => (2, EmptyString, []) | Spec.Sem.SNoFuel => (4, EmptyString, []) end)) (c_datas c)))")
 
     # ---------------------------------------------------------------- direct lexer stream
     def extra(self, binary, tmp, tier, rng, ev):
@@ -295,10 +722,30 @@ class C06(CoreProp):
 
     # ---------------------------------------------------------------- shrinking
     def shrink(self, case):
-        out = list(CoreProp.shrink(self, case))
         nodes = de(case["nodes"])
-        for cand in shrink_texts(nodes):
+        out = []
+        if "ast" in case:
+            out.append({k: v for k, v in case.items() if k != "ast"})
+        if case.get("siblings"):
+            out.append({k: v for k, v in case.items() if k != "siblings"})
+            if len(case["siblings"]) > 1:
+                for name in case["siblings"]:
+                    out.append(dict(case, siblings={k: v for k, v in case["siblings"].items() if k != name}))
+            for name, sn in case["siblings"].items():
+                for cand in list(shrink_list(de(sn), fine=False))[:12]:
+                    out.append(dict(case, siblings=dict(case["siblings"], **{name: ser(cand)})))
+        if len(case["datas"]) > 1:
+            out.append(dict(case, datas=case["datas"][:1]))
+        big = sum(tgen.node_kinds(nodes).values()) > 40
+        for cand in shrink_list(nodes, fine=not big):
             out.append(dict(case, nodes=ser(cand)))
+        if "ast" in case:
+            for k, v in case["ast"].items():
+                if v is True:
+                    out.append(dict(case, ast=dict(case["ast"], **{k: False})))
+        if not big:
+            # expression-level candidates of the shared shrinker (they drop the AST fields of the tags they rebuild)
+            out += list(CoreProp.shrink(self, case))
         return out
 
 
@@ -332,30 +779,29 @@ def shrink_text(s):
             yield s[:i] + s[i + 1:]
 
 
-def shrink_texts(nodes):
-    """candidates with one text node shortened, anywhere in the tree"""
+def shrink_list(nodes, fine=True):
+    """candidates, boldest first: drop a node; a tag / conditional replaced by its children; the same inside any child
+    list (AST fields kept); an element's AST fields dropped, one by one; a text shortened"""
+    for i in range(len(nodes)):
+        yield nodes[:i] + nodes[i + 1:]
     for i, n in enumerate(nodes):
-        if n[0] == 'text':
+        if n[0] == 'tag' and n[5]:
+            yield nodes[:i] + n[5] + nodes[i + 1:]
+        elif n[0] == 'cond' and n[2]:
+            yield nodes[:i] + n[2] + nodes[i + 1:]
+    for i, n in enumerate(nodes):
+        for lst, put in sub_lists(n):
+            for cand in shrink_list(lst, fine):
+                yield nodes[:i] + [put(cand)] + nodes[i + 1:]
+    for i, n in enumerate(nodes):
+        if n[0] == 'tag' and len(n) > 6:
+            yield nodes[:i] + [n[:6]] + nodes[i + 1:]
+            if fine:
+                for k in n[6]:
+                    yield nodes[:i] + [n[:6] + ({a: b for a, b in n[6].items() if a != k},)] + nodes[i + 1:]
+        elif n[0] == 'text' and fine:
             for t in shrink_text(n[1]):
                 yield nodes[:i] + [('text', t)] + nodes[i + 1:]
-        elif n[0] == 'tag':
-            for b in shrink_texts(n[5]):
-                yield nodes[:i] + [n[:5] + (b,)] + nodes[i + 1:]
-        elif n[0] == 'block':
-            for b in shrink_texts(n[1]):
-                yield nodes[:i] + [('block', b)] + nodes[i + 1:]
-        elif n[0] == 'cond':
-            for b in shrink_texts(n[2]):
-                yield nodes[:i] + [(n[0], n[1], b, n[3])] + nodes[i + 1:]
-        elif n[0] == 'each':
-            for b in shrink_texts(n[4]):
-                yield nodes[:i] + [n[:4] + (b,)] + nodes[i + 1:]
-        elif n[0] == 'mixin':
-            for b in shrink_texts(n[3]):
-                yield nodes[:i] + [n[:3] + (b,)] + nodes[i + 1:]
-        elif n[0] == 'call':
-            for b in shrink_texts(n[4]):
-                yield nodes[:i] + [n[:4] + (b,)] + nodes[i + 1:]
 
 
 PROP = C06()
